@@ -101,75 +101,175 @@ theorem fillConst_nodense (f : List Int → Int) (ops : List (Operand Int)) : Fi
   have e2 : i' = [] := by cases i' with | nil => rfl | cons a t => exact absurd hi' (by simp [InB])
   rw [e1, e2]
 
+theorem inb_nil_eq {i : Idx} (h : InB i []) : i = [] := by
+  cases i with
+  | nil => rfl
+  | cons a t => exact absurd h (by simp [InB])
+
+theorem fillPart_of_shape {x : COO Int} {d : Dense} (hr : Refines x d) :
+    Expr.fillPart d = if x.shape = [] then x.get [] else x.fill := by
+  unfold Expr.fillPart
+  rw [← hr.shape]
+  by_cases h : x.shape = []
+  · rw [if_pos h, if_pos h]
+    exact (hr.val [] (by rw [h]; trivial)).symm
+  · rw [if_neg h, if_neg h]; exact hr.fill.symm
+
 theorem ew1_step (f : Int → Int) (x : COO Int) (d : Dense) (hg : Good x) (hr : Refines x d) :
     Sim x.NoFill (Expr.mEw1 f x) (Expr.sEw1 f d) := by
   unfold Expr.mEw1 Expr.sEw1
-  have hc : ([Operand.coo x] : List (Operand Int)).any Operand.isCoo = true := rfl
-  have hs : bshapeN (([Operand.coo x] : List (Operand Int)).map Operand.shape) = .ok x.shape := C01.bshapeN_single x.shape
-  have hn : bshapeN ((([Operand.coo x] : List (Operand Int)).filter Operand.isDense).map Operand.shape) = .ok [] := rfl
-  obtain ⟨r, hr1, hshape⟩ := (C01.elemwise_decision (Expr.fn1 f) [Operand.coo x] x.shape [] hc hs hn).1
-    (fillConst_nodense _ _)
-  have hwfo : ∀ o ∈ ([Operand.coo x] : List (Operand Int)), o.WF := by
-    intro o ho
-    simp only [List.mem_singleton] at ho
-    subst ho
-    exact ⟨hg.wf, hg.nodup⟩
-  obtain ⟨_, _, hget, hnf, hwf, _, hsorted⟩ := C01.elemwiseN_get (Expr.fn1 f) [Operand.coo x] hwfo r hr1
-  have hfill := C01.elemwiseN_fill_nodense (Expr.fn1 f) [Operand.coo x] hwfo rfl r hr1
-  rw [hr1]
-  refine Sim.ok ⟨hwf, hsorted⟩ (fun _ => hnf) ⟨hshape.trans hr.shape, ?_, ?_⟩
-  · rw [hfill]
-    show f x.fill = f d.fill
-    rw [hr.fill]
-  · intro j hj
-    rw [hget j hj]
-    show f (x.get (projIdx x.shape r.shape j)) = f (d.val j)
-    rw [hshape] at hj ⊢
-    rw [projIdx_self hj, hr.val j hj]
+  rw [fillPart_of_shape hr]
+  by_cases h0 : x.shape = []
+  · -- a 0-d operand is densified: no stored element, the fill value is the function of the element
+    rw [if_pos h0, if_pos h0]
+    refine Sim.ok ⟨(fun e he => by cases he), List.Pairwise.nil⟩ (fun _ e he => by cases he)
+      ⟨by rw [← hr.shape, h0], rfl, ?_⟩
+    intro i hi
+    have : i = [] := inb_nil_eq hi
+    subst this
+    show f (x.get []) = f (d.val [])
+    rw [hr.val [] (by rw [h0]; trivial)]
+  · rw [if_neg h0, if_neg h0]
+    have hc : ([Operand.coo x] : List (Operand Int)).any Operand.isCoo = true := rfl
+    have hs : bshapeN (([Operand.coo x] : List (Operand Int)).map Operand.shape) = .ok x.shape := C01.bshapeN_single x.shape
+    have hn : bshapeN ((([Operand.coo x] : List (Operand Int)).filter Operand.isDense).map Operand.shape) = .ok [] := rfl
+    obtain ⟨r, hr1, hshape⟩ := (C01.elemwise_decision (Expr.fn1 f) [Operand.coo x] x.shape [] hc hs hn).1
+      (fillConst_nodense _ _)
+    have hwfo : ∀ o ∈ ([Operand.coo x] : List (Operand Int)), o.WF := by
+      intro o ho
+      simp only [List.mem_singleton] at ho
+      subst ho
+      exact ⟨hg.wf, hg.nodup⟩
+    obtain ⟨_, _, hget, hnf, hwf, _, hsorted⟩ := C01.elemwiseN_get (Expr.fn1 f) [Operand.coo x] hwfo r hr1
+    have hfill := C01.elemwiseN_fill_nodense (Expr.fn1 f) [Operand.coo x] hwfo rfl r hr1
+    rw [hr1]
+    refine Sim.ok ⟨hwf, hsorted⟩ (fun _ => hnf) ⟨hshape.trans hr.shape, ?_, ?_⟩
+    · rw [hfill]; rfl
+    · intro j hj
+      rw [hget j hj]
+      show f (x.get (projIdx x.shape r.shape j)) = f (d.val j)
+      rw [hshape] at hj ⊢
+      rw [projIdx_self hj, hr.val j hj]
+
+/-! the operand as `_Elemwise` sees it -/
+
+theorem operandOf_shape (x : COO Int) : (Expr.operandOf x).shape = x.shape := by
+  unfold Expr.operandOf
+  by_cases h : x.shape = []
+  · rw [if_pos h, h]; rfl
+  · rw [if_neg h]; rfl
+
+theorem operandOf_wf {x : COO Int} (hg : Good x) : (Expr.operandOf x).WF := by
+  unfold Expr.operandOf
+  by_cases h : x.shape = []
+  · rw [if_pos h]; trivial
+  · rw [if_neg h]; exact ⟨hg.wf, hg.nodup⟩
+
+theorem operandOf_valueAt {x : COO Int} {d : Dense} (hr : Refines x d) {s : List Nat} {j : Idx}
+    (hb : BcTo x.shape s) (hj : InB j s) :
+    (Expr.operandOf x).valueAt s j = d.val (projIdx d.shape s j) := by
+  unfold Expr.operandOf
+  rw [← hr.shape]
+  by_cases h : x.shape = []
+  · rw [if_pos h, h]
+    show ([x.get []] : List Int).getD (ravel (projIdx [] s j) []) default = d.val (projIdx [] s j)
+    have : projIdx [] s j = [] := by simp [projIdx]
+    rw [this]
+    simp only [ravel, List.getD_cons_zero]
+    exact hr.val [] (by rw [h]; trivial)
+  · rw [if_neg h]
+    exact hr.val _ (projIdx_InB hb hj)
+
+theorem operandOf_fillAt {x : COO Int} {d : Dense} (hr : Refines x d) :
+    (Expr.operandOf x).fillAt [] [] = Expr.fillPart d := by
+  rw [fillPart_of_shape hr]
+  unfold Expr.operandOf
+  by_cases h : x.shape = []
+  · rw [if_pos h, if_pos h]
+    show ([x.get []] : List Int).getD (ravel (projIdx [] [] []) []) default = x.get []
+    have : projIdx [] [] [] = [] := by simp [projIdx]
+    rw [this]
+    simp [ravel]
+  · rw [if_neg h, if_neg h]; rfl
 
 theorem ew2_step (f : Int → Int → Int) (x y : COO Int) (dx dy : Dense) (hgx : Good x) (hrx : Refines x dx)
     (hgy : Good y) (hry : Refines y dy) :
     Sim (x.NoFill ∧ y.NoFill) (Expr.mEw2 f x y) (Expr.sEw2 f dx dy) := by
   unfold Expr.mEw2 Expr.sEw2
   rw [← hrx.shape, ← hry.shape]
-  have hc : ([Operand.coo x, Operand.coo y] : List (Operand Int)).any Operand.isCoo = true := rfl
-  have hmap : ([Operand.coo x, Operand.coo y] : List (Operand Int)).map Operand.shape = [x.shape, y.shape] := rfl
-  have hn : bshapeN ((([Operand.coo x, Operand.coo y] : List (Operand Int)).filter Operand.isDense).map Operand.shape)
-      = .ok [] := rfl
-  have hpair := bshapeN_pair_np x.shape y.shape
-  cases hb : npBroadcast2 x.shape y.shape with
-  | none =>
-    rw [hb] at hpair
-    have := elemwiseN_shape_err (Expr.fn2 f) [Operand.coo x, Operand.coo y] .value hc (by rw [hmap]; exact hpair)
-    rw [this]
-    exact Sim.err _
-  | some s =>
-    rw [hb] at hpair
-    have hs : bshapeN (([Operand.coo x, Operand.coo y] : List (Operand Int)).map Operand.shape) = .ok s := by
-      rw [hmap]; exact hpair
-    obtain ⟨r, hr1, hshape⟩ := (C01.elemwise_decision (Expr.fn2 f) [Operand.coo x, Operand.coo y] s [] hc hs hn).1
-      (fillConst_nodense _ _)
-    have hwfo : ∀ o ∈ ([Operand.coo x, Operand.coo y] : List (Operand Int)), o.WF := by
-      intro o ho
-      simp only [List.mem_cons, List.not_mem_nil, or_false] at ho
-      rcases ho with rfl | rfl
-      · exact ⟨hgx.wf, hgx.nodup⟩
-      · exact ⟨hgy.wf, hgy.nodup⟩
-    obtain ⟨_, _, hget, hnf, hwf, _, hsorted⟩ :=
-      C01.elemwiseN_get (Expr.fn2 f) [Operand.coo x, Operand.coo y] hwfo r hr1
-    have hfill := C01.elemwiseN_fill_nodense (Expr.fn2 f) [Operand.coo x, Operand.coo y] hwfo rfl r hr1
-    have hbx : BcTo x.shape s := bcTo_of_bshapeN hs (by simp [hmap])
-    have hby : BcTo y.shape s := bcTo_of_bshapeN hs (by simp [hmap])
-    rw [hr1]
-    refine Sim.ok ⟨hwf, hsorted⟩ (fun _ => hnf) ⟨hshape, ?_, ?_⟩
-    · rw [hfill]
-      show f x.fill y.fill = f dx.fill dy.fill
-      rw [hrx.fill, hry.fill]
-    · intro j hj
-      rw [hget j hj]
-      rw [hshape] at hj ⊢
-      show f (x.get (projIdx x.shape s j)) (y.get (projIdx y.shape s j)) = f (dx.val _) (dy.val _)
-      rw [hrx.val _ (projIdx_InB hbx hj), hry.val _ (projIdx_InB hby hj)]
+  by_cases h00 : x.shape = [] ∧ y.shape = []
+  · -- both operands 0-d: both are densified
+    rw [if_pos h00, h00.1, h00.2]
+    have hb : npBroadcast2 [] [] = some [] := by decide
+    rw [hb]
+    simp only []
+    have hx0 : InB [] x.shape := by rw [h00.1]; trivial
+    have hy0 : InB [] y.shape := by rw [h00.2]; trivial
+    refine Sim.ok ⟨(fun e he => by cases he), List.Pairwise.nil⟩ (fun _ e he => by cases he) ⟨rfl, ?_, ?_⟩
+    · show f (x.get []) (y.get []) = f (Expr.fillPart dx) (Expr.fillPart dy)
+      rw [fillPart_of_shape hrx, fillPart_of_shape hry, if_pos h00.1, if_pos h00.2]
+    · intro i hi
+      have : i = [] := inb_nil_eq hi
+      subst this
+      show f (x.get []) (y.get []) = f (dx.val (projIdx [] [] [])) (dy.val (projIdx [] [] []))
+      have : projIdx [] [] [] = [] := by simp [projIdx]
+      rw [this, hrx.val [] hx0, hry.val [] hy0]
+  · rw [if_neg h00]
+    have hmap : ([Expr.operandOf x, Expr.operandOf y] : List (Operand Int)).map Operand.shape = [x.shape, y.shape] := by
+      simp only [List.map_cons, List.map_nil, operandOf_shape]
+    have hc : ([Expr.operandOf x, Expr.operandOf y] : List (Operand Int)).any Operand.isCoo = true := by
+      unfold Expr.operandOf
+      by_cases hx : x.shape = []
+      · have hy : ¬ y.shape = [] := fun hy => h00 ⟨hx, hy⟩
+        simp [hx, hy, Operand.isCoo]
+      · simp [hx, Operand.isCoo]
+    have hn : bshapeN ((([Expr.operandOf x, Expr.operandOf y] : List (Operand Int)).filter Operand.isDense).map Operand.shape)
+        = .ok [] := by
+      unfold Expr.operandOf
+      by_cases hx : x.shape = [] <;> by_cases hy : y.shape = []
+      · exact absurd ⟨hx, hy⟩ h00
+      · simp only [hx, hy, if_true, if_false, List.filter, Operand.isDense, List.map_cons, List.map_nil, Operand.shape]
+        rfl
+      · simp only [hx, hy, if_true, if_false, List.filter, Operand.isDense, List.map_cons, List.map_nil, Operand.shape]
+        rfl
+      · simp only [hx, hy, if_false, List.filter, Operand.isDense, List.map_nil]
+        rfl
+    have hpair := bshapeN_pair_np x.shape y.shape
+    cases hb : npBroadcast2 x.shape y.shape with
+    | none =>
+      rw [hb] at hpair
+      have := elemwiseN_shape_err (Expr.fn2 f) [Expr.operandOf x, Expr.operandOf y] .value hc (by rw [hmap]; exact hpair)
+      rw [this]
+      exact Sim.err _
+    | some s =>
+      rw [hb] at hpair
+      have hs : bshapeN (([Expr.operandOf x, Expr.operandOf y] : List (Operand Int)).map Operand.shape) = .ok s := by
+        rw [hmap]; exact hpair
+      obtain ⟨r, hr1, hshape⟩ := (C01.elemwise_decision (Expr.fn2 f) [Expr.operandOf x, Expr.operandOf y] s [] hc hs hn).1
+        (fillConst_nodense _ _)
+      have hwfo : ∀ o ∈ ([Expr.operandOf x, Expr.operandOf y] : List (Operand Int)), o.WF := by
+        intro o ho
+        simp only [List.mem_cons, List.not_mem_nil, or_false] at ho
+        rcases ho with rfl | rfl
+        · exact operandOf_wf hgx
+        · exact operandOf_wf hgy
+      obtain ⟨_, ⟨nd, hnd, hfillN⟩, hget, hnf, hwf, _, hsorted⟩ :=
+        C01.elemwiseN_get (Expr.fn2 f) [Expr.operandOf x, Expr.operandOf y] hwfo r hr1
+      have hnd' : nd = [] := Except.ok.inj (hnd.symm.trans hn)
+      subst hnd'
+      have hfill := hfillN [] trivial
+      have hbx : BcTo x.shape s := bcTo_of_bshapeN hs (by simp [hmap])
+      have hby : BcTo y.shape s := bcTo_of_bshapeN hs (by simp [hmap])
+      rw [hr1]
+      refine Sim.ok ⟨hwf, hsorted⟩ (fun _ => hnf) ⟨hshape, ?_, ?_⟩
+      · rw [hfill]
+        show f ((Expr.operandOf x).fillAt [] []) ((Expr.operandOf y).fillAt [] []) = _
+        rw [operandOf_fillAt hrx, operandOf_fillAt hry]
+      · intro j hj
+        rw [hget j hj]
+        rw [hshape] at hj ⊢
+        show f ((Expr.operandOf x).valueAt s j) ((Expr.operandOf y).valueAt s j) = f (dx.val _) (dy.val _)
+        rw [operandOf_valueAt hrx hbx hj, operandOf_valueAt hry hby hj, ← hrx.shape, ← hry.shape]
 
 /-! ### broadcast_to -/
 
